@@ -1,11 +1,17 @@
 import PfModel.DriverLib
 import PfModel.Model.Typing
 import PfModel.Model.TypingPipe
+import PfModel.Model.TypingX
+-- BEGIN C16r9-inc
+import PfModel.Model.TypingInc
+-- END C16r9-inc
 /-! Driver for C16 (`typing.compat`, `typing.pipeline`, `typing.desc`). Run: `lake env lean --run Driver/C16.lean < requests.jsonl`.
 
 Annotation grammar (JSON): `"int" | "bool" | "float" | "str" | "bytes" | "None" | "A" | "B" (user classes, `B(A)`) | "Any" | "NoAnn" | "ndarray" | "T"`
 (free TypeVar), `{"g": "list"|"set"|"tuple"|"dict", "a": [ty..]}`, `{"u": [ty..]}`, `{"an": ty}`, `{"arr": ty}`,
-`{"tvb": ty}` (bound TypeVar), `{"tvc": [ty..]}` (constrained TypeVar). -/
+`{"tvb": ty}` (bound TypeVar), `{"tvc": [ty..]}` (constrained TypeVar).
+Extended grammar (entry `typing.compatx`, `PF.Typing.XTy`): additionally `{"lit": [v..]}` (`Literal[..]`, `v` an integer, a string, a boolean
+or `null`) and `{"vt": ty}` (`tuple[ty, ...]`). -/
 open Lean PF.Drv PF.Typing
 
 def getGen (s : String) : R Gen :=
@@ -125,6 +131,46 @@ def putCEdge (c : CEdge) : Json :=
   jObj ([("prod", jNat c.prod), ("cons", jNat c.cons), ("param", jStr c.param), ("out", putHint c.out), ("inp", putHint c.inp),
          ("warns", jBool c.warns)] ++ cls)
 
+-- BEGIN C16r9 (extended annotation language)
+def getLitV (j : Json) : R LitV :=
+  match j with
+  | .null => .ok .none
+  | .bool b => .ok (.bool b)
+  | .str s => .ok (.str s)
+  | _ => do return .int (← asInt j)
+
+partial def getXTy (j : Json) : R XTy := do
+  match j with
+  | .str "int" => return .base .int
+  | .str "bool" => return .base .bool
+  | .str "float" => return .base .float
+  | .str "str" => return .base .str
+  | .str "bytes" => return .base .bytes
+  | .str "None" => return .base .none
+  | .str "A" => return .base .clsA
+  | .str "B" => return .base .clsB
+  | .str "Any" => return .any
+  | .str "NoAnn" => return .noann
+  | .str "ndarray" => return .ndarr
+  | .str "T" => return .tvFree
+  | .str s => .error s!"unknown type name {s}"
+  | _ =>
+    if let some g := fld? j "g" then
+      return .gen (← getGen (← asStr g)) (← (← asArr (← fld j "a")).mapM getXTy)
+    else if let some u := fld? j "u" then return .union (← (← asArr u).mapM getXTy)
+    else if let some t := fld? j "an" then return .annot (← getXTy t)
+    else if let some t := fld? j "arr" then return .array (← getXTy t)
+    else if let some t := fld? j "tvb" then return .tvBound (← getXTy t)
+    else if let some c := fld? j "tvc" then return .tvConstr (← (← asArr c).mapM getXTy)
+    else if let some l := fld? j "lit" then return .lit (← (← asArr l).mapM getLitV)
+    else if let some t := fld? j "vt" then return .vtuple (← getXTy t)
+    else .error s!"bad type {j.compress}"
+
+def getWfXTy (j : Json) : R XTy := do
+  let t ← getXTy j
+  if t.wf then return t else .error s!"annotation is not well-formed (nested union / nested Annotated / empty union / empty Literal): {j.compress}"
+-- END C16r9
+
 def putOutcome : Outcome → Json
   | .ok => jStr "ok"
   | .typeError => jStr "TypeError"
@@ -133,7 +179,13 @@ def handle (m : String) (a : Json) : R Json := do
   match m with
   | "typing.compat" =>
     let ps ← listF (asPair getWfTy getWfTy) a "pairs"
-    return jList (fun p => jBool (compat p.1 p.2)) ps
+    -- the extended model must agree with the old one on the old language (`compatX ∘ emb = compat`, checked, not proved)
+    match ps.find? (fun p => compatX p.1.emb p.2.emb != compat p.1 p.2) with
+    | some p => .error s!"compatX (emb a) (emb b) differs from compat a b on {(putTy p.1).compress} -> {(putTy p.2).compress}"
+    | none => return jList (fun p => jBool (compat p.1 p.2)) ps
+  | "typing.compatx" =>
+    let ps ← listF (asPair getWfXTy getWfXTy) a "pairs"
+    return jList (fun p => jBool (compatX p.1 p.2)) ps
   | "typing.pipeline" =>
     let es ← listF getEdge a "edges"
     let v ← boolF a "validate"
@@ -148,6 +200,16 @@ def handle (m : String) (a : Json) : R Json := do
                  ("params", jList (fun f => putAnn (paramAnnotations f)) fs),
                  ("outputs", jList (fun f => putAnn (outputAnnotation f)) fs),
                  ("visited", jList putCEdge (visit fs))]
+  -- BEGIN C16r9-inc
+  | "typing.inc" =>
+    -- `Pipeline.add` validates after every function: one description per stage (`Model/TypingInc.lean`)
+    let stages ← listF (asList getFunc) a "stages"
+    let v ← boolF a "validate"
+    return jObj [("outcome", putOutcome (constructInc v stages)),
+                 ("firstBad", jOpt jNat (firstBad stages)),
+                 ("perStage", jList (fun s => putOutcome (constructP true s)) stages),
+                 ("perStageVisited", jList (fun s => jList putCEdge (visit s)) stages)]
+  -- END C16r9-inc
   | _ => .error s!"unknown entry {m}"
 
 def main : IO Unit := loop handle
